@@ -130,6 +130,31 @@ fn check(ctx: &Ctx, c: &Case, label: &str, counting: bool) -> Result<(), Fail> {
 			ctx.class("embedded_stream_full_read_unsupported");
 		}
 	}
+	// a reader that reports `Interrupted` now and then (a signal arriving during a blocking read): wherever
+	// the full read copes with it, the skip-frames read must too, with the same result
+	if bytes.len() % 3 == 0 {
+		use crate::readers::{SchedReader, Schedule};
+		let mk = || {
+			let mut r = SchedReader::new(&bytes, Schedule::Fixed(37 + bytes.len() % 300));
+			r.interrupts = 1 + bytes.len() % 2;
+			r.interrupt_calls = usize::MAX;
+			r
+		};
+		let of = rt::slp_opts(false, c.hash);
+		let os = rt::slp_opts(true, c.hash);
+		let mut r1 = mk();
+		if let rt::Out::Ok(ifull) = rt::guard(|| peppi::io::slippi::read(&mut r1, Some(&of))) {
+			if counting {
+				ctx.class("interrupted_reads");
+			}
+			let mut r2 = mk();
+			let iskip = rt::guard(|| peppi::io::slippi::read(&mut r2, Some(&os))).expect_ok("slippi::read(skip_frames, reader that reports Interrupted)").map_err(|f| f.with_file("slp", &bytes).with_detail(detail.clone()))?;
+			same_sem(&iskip, &ifull).map_err(|e| fail("sem_interrupted", format!("reader reporting Interrupted, skip-frames vs full: {}", e)))?;
+			if c.hash && iskip.hash != ifull.hash {
+				return Err(fail("hash_interrupted", format!("reader reporting Interrupted: hash {:?} vs {:?}", iskip.hash, ifull.hash)));
+			}
+		}
+	}
 	same_sem(&skip, &full).map_err(|e| fail("sem", format!("skip-frames vs full: {}", e)))?;
 	if c.hash && skip.hash != full.hash {
 		return Err(fail("hash", format!("hash {:?} vs {:?}", skip.hash, full.hash)));
